@@ -25,7 +25,8 @@ import termios
 from pv import lib_coop, lib_pipegen
 from pv.core import InfraError, REPO
 
-OPS = ["feed1", "feed2", "feedempty1", "feedempty2", "drain1", "drain2", "empty1", "empty2", "eof", "close", "fileno"]
+OPS = ["feed1", "feed2", "feedempty1", "feedempty2", "drain1", "drain2", "empty1", "empty2", "eof", "close", "fileno",
+       "combineon", "combineoff", "feederr"]
 RACE_SIG = "fileno-mismatch:not-readable"
 EMPTY_SIG = "fileno-mismatch:spurious-readable:empty-feed"
 
@@ -91,6 +92,16 @@ class Rig:
     # ---- real operations
     def op_fn(self, op):
         ch, bp = self.ch, self.w.bpmod
+        if op == "feederr":
+            from paramiko.message import Message
+
+            def feederr():
+                m = Message()
+                m.add_int(1)
+                m.add_string(b"x")
+                m.rewind()
+                ch._feed_extended(m)
+            return feederr
         if op.startswith("feedempty"):
             b = self.bufs[int(op[-1]) - 1]
             return lambda: b.feed(b"")
@@ -115,6 +126,20 @@ class Rig:
             return ch._unlink
         if op == "fileno":
             return ch.fileno
+        if op == "combineon":
+            return lambda: ch.set_combine_stderr(True)
+        if op == "combineoff":
+            return lambda: ch.set_combine_stderr(False)
+        if op == "feederr":
+            from paramiko.message import Message
+
+            def feederr():
+                m = Message()
+                m.add_int(1)
+                m.add_string(b"x")
+                m.rewind()
+                ch._feed_extended(m)
+            return feederr
         raise InfraError("C24: op " + op)
 
     # ---- observation
@@ -169,6 +194,7 @@ class Rig:
             "cl1": ch.in_buffer._closed, "cl2": ch.in_stderr_buffer._closed,
             "ev1": e1 is not None, "ev2": e2 is not None,
             "eof": bool(ch.eof_received), "closed": bool(ch.closed), "pipe": p is not None,
+            "comb": bool(ch.combine_stderr),
         }
         return " ".join("%s=%d" % (k, int(v)) for k, v in d.items())
 
@@ -181,7 +207,7 @@ class Rig:
     def oracle(self):
         """None, or (signature, detail) — only meaningful at quiescence after fileno()"""
         ch = self.ch
-        if ch._pipe is None or ch.in_buffer._event is None or ch.in_stderr_buffer._event is None:
+        if ch._pipe is None:
             return None
         readable = bool(select.select([ch._pipe.fileno()], [], [], 0)[0])
         should = (len(ch.in_buffer._buffer) > 0 or len(ch.in_stderr_buffer._buffer) > 0 or bool(ch.eof_received)
@@ -506,7 +532,8 @@ def atomic_random(world_box, table, g, rng, nacts):
         elif r < 0.75:
             ar.act("bstep", rng.choice([1, 2]))
         elif r < 0.90:
-            ar.act("cstart", rng.choice(["fileno", "fileno", "eof", "close"]))
+            ar.act("cstart", rng.choice(["fileno", "fileno", "eof", "close", "combineon", "combineoff", "feederr",
+                                         "feederr"]))
         else:
             ar.act("cstep")
     # finish everything
@@ -588,12 +615,13 @@ def run(ctx):
             rigs.append(rig)
         # ---- exhaustive exploration of the statement-level MODEL on the generated code (a search, not a proof): every
         #      schedule of the lock-holder abstraction; an offending schedule, if any, is replayed on the real code
-        ex = ctx.driver("C24", ["S exhaust generated %d" % g], timeout=900)
+        ex = ctx.driver("C24", ["S exhaust generated %d %s" % (g, "full" if ctx.thorough else "core")], timeout=1500)
         if ex is not None:
             f = dict(x.split("=", 1) for x in ex[0].split(" ", 4))
             ctx.extra["statement_level_model_exploration"] = {
                 "states": int(f["states"]), "quiescent": int(f["quiescent"]), "bad_quiescent": int(f["bad"]),
                 "deadlocks": int(f["deadlocks"]),
+                "alphabet": "full" if ctx.thorough else "core (without the effect-free empty feeds)",
                 "note": "breadth-first over all schedules of the statement-level model (3 lock holders) on the "
                         "generated instruction lists; supports the serialisability step, is not a proof"}
             if int(f["bad"]) or int(f["deadlocks"]):
@@ -620,6 +648,13 @@ def run(ctx):
             for end in ([], ["eof"], ["close"]):
                 setups.append(["fileno"] + data + end)
                 setups.append(data + end)           # fileno not called yet
+        # combine_stderr toggled before and after fileno()
+        for pre in ([], ["combineon"], ["feed2", "combineon"]):
+            for post in ([], ["combineoff"], ["combineon"], ["combineoff", "feederr"], ["feederr"]):
+                if pre or post:
+                    setups.append(pre + ["fileno"] + post)
+        setups.append(["combineon"])
+        setups.append(["combineon", "feederr"])
         pair_ops = [o for o in OPS]
         jobs = []
         for setup in setups:
@@ -631,7 +666,8 @@ def run(ctx):
                     jobs.append((setup, a, b))
         if not ctx.thorough:
             # every pair from the plain start state, a seeded sample of the rest
-            base = [j for j in jobs if j[0] in (["fileno"], ["fileno", "feed2"], ["fileno", "feed1"])]
+            base = [j for j in jobs if j[0] in (["fileno"], ["fileno", "feed2"], ["fileno", "feed1"],
+                                                ["combineon", "fileno", "combineoff"])]
             rest = [j for j in jobs if j not in base]
             jobs = base + rng.sample(rest, min(len(rest), 450))
         cap = 400 if ctx.thorough else 40
@@ -665,7 +701,8 @@ def run(ctx):
         # ---- random triples
         for _ in range(400 if ctx.thorough else 150):
             setup = rng.choice(setups)
-            ops3 = [rng.choice(["eof", "close", "fileno", "feed1", "feed2"])] + [rng.choice(OPS[:8]) for _ in range(2)]
+            ops3 = [rng.choice(["eof", "close", "fileno", "feed1", "feed2", "combineon", "combineoff", "feederr"])] + [
+                rng.choice(OPS[:8]) for _ in range(2)]
             if "fileno" not in setup and "fileno" not in ops3:
                 setup = ["fileno"] + setup
             rig = random_schedule(ctx, world_box, table, setup, ops3, rng, rng.randrange(5, 60))
@@ -772,7 +809,8 @@ def guard_in_feed(bpmod):
 META = {
     "claimed": True,
     "level": ("Proved in Lean for every schedule (any number of threads; feeds incl. empty ones, draining reads, empty(), "
-              "EOF, close, fileno in any order and interleaving): at every quiescent point after fileno(), select() "
+              "EOF, close, fileno, set_combine_stderr(True/False) before and after fileno(), stderr data arriving "
+              "through _feed_extended, in any order and interleaving): at every quiescent point after fileno(), select() "
               "reports the descriptor readable iff stdout or stderr holds data or EOF was received or the channel is "
               "closed (readable_iff_at_quiescence), with the pipe.py calls atomic. The effect of each pipe.py call is "
               "obtained by interpreting, in Lean, instruction lists that are regenerated from the AST of pipe.py on every "
